@@ -1,9 +1,11 @@
-/- Dedicated driver of the pipeline model (C02/C03/C05/C12/C20): `ymdriver_pipe pipe | pipe-spec`.
+/- Dedicated driver of the pipeline model (C02/C03/C05/C12/C20): `ymdriver_pipe pipe | pipe-spec | result`.
    Separate executable so that another model that stops compiling cannot take it down. -/
 import Driver.Pipeline
+import Driver.ResultAlg
 
 def main (args : List String) : IO UInt32 := do
   match args with
   | ["pipe"] => Yaclib.Driver.Pipe.main false; return 0
   | ["pipe-spec"] => Yaclib.Driver.Pipe.main true; return 0
-  | _ => IO.eprintln "usage: ymdriver_pipe pipe|pipe-spec"; return 2
+  | ["result"] => Yaclib.Driver.ResultAlg.main; return 0
+  | _ => IO.eprintln "usage: ymdriver_pipe pipe|pipe-spec|result"; return 2
